@@ -60,10 +60,29 @@ func canon(m map[string]string) string {
 func doGet(h *health.Health) (hOut, map[string]string, string) {
 	rr := httptest.NewRecorder()
 	h.ReadyzHandler().ServeHTTP(rr, httptest.NewRequest("GET", "/readyz", nil))
-	var body map[string]string
+	var anyBody map[string]any
 	raw := rr.Body.String()
-	if err := json.Unmarshal([]byte(raw), &body); err != nil {
+	if err := json.Unmarshal([]byte(raw), &anyBody); err != nil {
 		return hOut{Code: rr.Code, Body: "UNPARSABLE:" + raw}, nil, raw
+	}
+	// 'overall' and the components this harness registers are what the
+	// property speaks about; a further key in the body (a timestamp, a
+	// version) is not a component status and is left alone
+	body := map[string]string{}
+	for k, v := range anyBody {
+		known := k == health.OverallReady
+		for _, n := range hNames {
+			known = known || k == n
+		}
+		sv, isString := v.(string)
+		switch {
+		case known && !isString:
+			return hOut{Code: rr.Code, Body: "UNPARSABLE:" + raw}, nil, raw
+		case known:
+			body[k] = sv
+		case isString && (sv == health.ComponentReady || sv == health.ComponentNotReady):
+			body[k] = sv // looks like a component nobody registered: the checks below will say so
+		}
 	}
 	return hOut{Code: rr.Code, Body: canon(body)}, body, raw
 }
